@@ -638,6 +638,33 @@ func (o *oracles) final() {
 		// cut by the step budget
 		return
 	}
+	if o.s.plan.Poip {
+		// packets fed to the PCAP-over-IP handler are written and queued for import
+		// by goroutines outside the schedule: give them (real) time to hand their
+		// captures over, and run what they start, before judging quiescence
+		quiet := 0
+		for i := 0; i < 400 && quiet < 5; i++ {
+			time.Sleep(5 * time.Millisecond)
+			o.s.settle()
+			ran := false
+			for _, e := range o.s.enabled() {
+				if e.kind != "api" {
+					o.s.exec(e)
+					ran = true
+					break
+				}
+			}
+			if o.s.res.Viol != nil {
+				return
+			}
+			o.refreshState()
+			if ran || o.state == nil || len(o.state.ImportJobs) > 0 || len(o.s.jobs) > 0 {
+				quiet = 0
+			} else {
+				quiet++
+			}
+		}
+	}
 	// one tick so that pending tag events are flushed, then re-check
 	o.s.exec(stepRef{label: "tick", kind: "tick"})
 	if o.s.res.Viol != nil {
